@@ -179,7 +179,25 @@ func c19R2(c *engine.Ctx) {
 				}
 			}
 		}
-		c.Check(okDigest, "C19.R2", "readServerHello/digest-origin", r.Pos(), "the digest compared must be copied out of the received packet")
+		// the received digest must survive until the comparison: the MAC must not be summed into its buffer
+		for _, call := range engine.Calls(fn) {
+			cc := call.Common()
+			if cc.IsInvoke() && cc.Method.Name() == "Sum" && cc.Value == ssa.Value(mac) {
+				arg := cc.Args[0]
+				alias := false
+				for _, a := range eqArgs {
+					if sl, ok := engine.Unwrap(a).(*ssa.Slice); ok {
+						if al, ok := sl.X.(*ssa.Alloc); ok && engine.DependsOn(arg, al) {
+							alias = true
+						}
+					}
+				}
+				if !engine.IsNil(arg) && alias {
+					okDigest = false
+				}
+			}
+		}
+		c.Check(okDigest, "C19.R2", "readServerHello/digest-origin", r.Pos(), "the digest compared must be copied out of the received packet and not overwritten (e.g. by summing the MAC into its buffer) before the comparison")
 	}
 	c.Floor("C19.R2", 1, n)
 }
